@@ -757,10 +757,25 @@ func runReserved(c *core.Ctx) {
 						switch f.Name() {
 						case "SplitAfter", "SplitAfterN", "SplitN", "Cut", "Fields":
 							if badSplit == token.NoPos {
-								badSplit, badSplitName = call.Pos(), f.Name()
+								badSplit, badSplitName = call.Pos(), "strings."+f.Name()
 							}
 						case "Split":
-							goodSplit = true
+							// the separator is the one the name's components are joined with in the path
+							if sepv, isC := constString(sp, call.Args[len(call.Args)-1]); len(call.Args) == 2 && isC && sepv == "/" {
+								goodSplit = true
+							} else if badSplit == token.NoPos {
+								badSplit, badSplitName = call.Pos(), "strings.Split on a separator other than \"/\""
+							}
+						}
+					} else if ok && f.Pkg() != nil && f.Pkg() != sp.Types {
+						// any other library function that hands back a list of strings (filepath.SplitList cuts at the
+						// path-list separator ‘:’, not at ‘/’: the whole name stays one component)
+						if sig, isSig := f.Type().(*types.Signature); isSig && sig.Results().Len() == 1 {
+							if sl, isSl := sig.Results().At(0).Type().Underlying().(*types.Slice); isSl {
+								if bt, isB := sl.Elem().Underlying().(*types.Basic); isB && bt.Kind() == types.String && badSplit == token.NoPos {
+									badSplit, badSplitName = call.Pos(), f.Pkg().Name()+"."+f.Name()
+								}
+							}
 						}
 					}
 				}
@@ -825,7 +840,7 @@ func runReserved(c *core.Ctx) {
 		})
 	}
 	if badSplit != token.NoPos {
-		c.Fail("components", badSplit, "the repository name is cut with strings.%s before its components are compared with the reserved names: not every component is compared as it is used in the path (a reserved name in the middle of a nested repository name passes)", badSplitName)
+		c.Fail("components", badSplit, "the repository name is cut with %s before its components are compared with the reserved names: not every component is compared as it is used in the path (a reserved name in the middle of a nested repository name passes)", badSplitName)
 	} else if goodSplit {
 		c.Pass("components", token.NoPos, "the repository name is cut into its components with strings.Split before they are compared with the reserved names")
 	}
